@@ -255,7 +255,7 @@ void iwavelet(numpy::aligned_array<T> array, const float coeffs[], const int nco
     for (npy_intp y = 0; y != N0; ++y) {
         T* data = array.data(y);
         T* low = data;
-        T* high = data + step*N1/2;
+        T* high = data + step*(N1/2);
         for (npy_intp x = 0; x < N1; ++x) {
             T l = T();
             T h = T();
@@ -460,7 +460,7 @@ void ihaar(numpy::aligned_array<T> array) {
     for (int y = 0; y != N0; ++y) {
         T* data = array.data(y);
         T* low = data;
-        T* high = data + step*N1/2;
+        T* high = data + step*(N1/2);
         for (int x = 0; x != (N1/2); ++x) {
             const T h = high[x*step];
             const T l = low[x*step];
